@@ -92,6 +92,7 @@ def check_stmts(stmts: list[Statement], errors: list[Error]) -> None:
                 ):
                     name_visitor = ReadCountVisitor(name)
                     name_visitor.accept(stmt)
+                    name_visitor.accept(if_expr)
 
                     if name_visitor.read_count == 1:
                         errors.append(ErrorInfo.from_node(assign))
